@@ -3,7 +3,7 @@ From PV Require Import Base.Prelude Base.Decimal Wire.Lex Wire.Strings Wire.Stri
 
 Local Open Scope N_scope.
 
-(* expected: Some s | None = the code k raised (1 UnicodeDecodeError, 2 hang) *)
+(* expected: the string | the exception k raised (1 UnicodeDecodeError) *)
 Inductive xstr := XS (s : list N) | XE (k : N).
 
 Definition res_eqb (r : result (list N)) (x : xstr) : bool :=
@@ -23,12 +23,6 @@ Definition chk_encode (c : list N * bytes * bytes * list N) : bool :=
   bytes_eqb (modutf7_encode s) e && bytes_eqb (print_mailbox s) m &&
   eqb_list N.eqb (mailbox_norm s) v.
 
-(* Mailbox.parse: (input, outcome): XOk (XS name) | XOk (XE k) when decoding raises *)
-Definition chk_mailbox (c : bytes * xres xstr) : bool :=
-  match parse_mailbox default_sparams [] (fst c), snd c with
-  | POk r rest _, XOk x rest' _ =>
-    res_eqb r x && match x with XS _ => bytes_eqb rest rest' | XE _ => true end
-  | PFail, XFail => true
-  | PNeed n, XNeed n' => n =? n'
-  | _, _ => false
-  end.
+(* Mailbox.parse: (input, outcome) *)
+Definition chk_mailbox (c : bytes * xres (list N)) : bool :=
+  pres_eqb (eqb_list N.eqb) (parse_mailbox default_sparams [] (fst c)) (snd c).
